@@ -66,7 +66,12 @@ def gen(rng, idx, tier, seed):
     k = [1, 1, 2, 3, 4][int(rng.integers(5))]
     chosen = [names[i] for i in rng.permutation(4)[:k]]
     win = [[d, gen_window(rng, dims[d])] for d in chosen]
-    return {'file': fs, 'window': win}
+    spec = {'file': fs, 'window': win}
+    if rng.random() < 0.2 and not fs.get('withcf'):
+        # time metadata carried by SDATE/STIME/TSTEP alone (no TFLAG
+        # variable), which getTimes supports
+        spec['notflag'] = True
+    return spec
 
 
 def norm(sel, n):
@@ -81,6 +86,9 @@ def run(spec, res):
     from ..refsel import dec_sel
     fs = spec['file']
     f = gen_ioapi.build(fs)
+    if spec.get('notflag'):
+        del f.variables['TFLAG']
+        res.facet('no-TFLAG-variable')
     kw = {d: dec_sel(s) for d, s in spec['window']}
     x0, y0 = float(f.XORIG), float(f.YORIG)
     xc, yc = float(f.XCELL), float(f.YCELL)
